@@ -106,6 +106,8 @@ pub struct Interp {
 	pub allow_reject: bool,
 	pub check_every_op: bool,
 	pub background: bool,
+	/// resolve root keys as with background workers (never reuse one) although stepping
+	pub no_root_reuse: bool,
 	pub reads: u64,
 	/// set when a transaction containing a tree dereference has been accepted while a reader
 	/// lock was held
@@ -177,6 +179,7 @@ impl Interp {
 			allow_reject: false,
 			check_every_op: true,
 			background: false,
+			no_root_reuse: false,
 			reads: 0,
 			locked: None,
 			sync_track: None,
@@ -417,7 +420,7 @@ impl Interp {
 					// tree's reader, would trigger commit deferral (C11's domain, not this check's).
 					while live.contains(&root) ||
 						used_roots.contains(&(col, root)) ||
-						((self.background || self.locked.is_some()) && self.ever_roots.contains(&(col, root)))
+						((self.background || self.no_root_reuse || self.locked.is_some()) && self.ever_roots.contains(&(col, root)))
 					{
 						root = root.wrapping_add(1);
 					}
